@@ -118,6 +118,7 @@ type KVObs struct {
 	ReadsPure bool
 	Backfill  []EventObs // Dump feed of A from CAS 0 (markers included)
 	BackfillFrom map[uint64][]EventObs // extra Dump feeds from other start CAS values (C09 runs only)
+	BackfillKeysOnly []EventObs        // KeysOnly Dump feed from CAS 0 (C09 runs only)
 	BackfillErr string
 	FeedMapNil []bool
 	FeedCounts map[string]int
@@ -187,6 +188,11 @@ func (w *KVWorld) Observe() KVObs {
 		}
 	}
 	if w.ExtraBackfills {
+		ko, err := DumpFeed(a1, 0, true)
+		if err != nil {
+			o.BackfillErr = err.Error()
+		}
+		o.BackfillKeysOnly = ko
 		// start CAS values: the oldest stored CAS, the newest, one past the newest, and the CAS after the oldest
 		var cs []uint64
 		for _, r := range d.Docs {
